@@ -194,6 +194,38 @@ theorem c13_omitted_record_field_gets_expanded_default :
       | .ok v _ => some v | _ => none) =
       some (.record [([112], .record [([99], .i32 10), ([115], .i32 0)])]) := by rfl
 
+/-- what a field is apart from its default's value -/
+def Field.shape (f : Field) : Bytes × Ty × Bool × Bool := (f.name, f.ty, f.optional, f.dflt.isSome)
+
+/-- reading the literals changes the default *values* only: every declaration keeps its kind, its
+includes, and the name, type, optional flag and defaultedness of every field — so required-field
+lists, field order and everything else the readers and writers take from the schema are those of
+the schema as written -/
+theorem c13_expansion_changes_default_values_only (env : Env) (d : Decl) :
+    (∀ incs own, d = .record incs own →
+      ∃ own', expandDecl env d = .record incs own' ∧ own'.map Field.shape = own.map Field.shape) ∧
+    ((∀ incs own, d ≠ .record incs own) → expandDecl env d = d) := by
+  constructor
+  · intro incs own hd
+    subst hd
+    refine ⟨_, rfl, ?_⟩
+    simp [List.map_map, Function.comp_def, Field.shape, Option.isSome_map]
+  · intro h
+    cases d with
+    | record incs own => exact absurd rfl (h incs own)
+    | _ => rfl
+
+/-- … and one pass looks every declaration up under its own name -/
+theorem c13_expansion_keeps_names (env ctx : Env) (n : TName) :
+    Env.find (env.map fun (e : TName × Decl) => (e.1, expandDecl ctx e.2)) n = (env.find n).map (expandDecl ctx) := by
+  induction env with
+  | nil => rfl
+  | cons e rest ih =>
+    simp only [Env.find, List.map_cons, List.lookup] at ih ⊢
+    cases hne : (n == e.1) with
+    | true => simp
+    | false => simpa using ih
+
 /-! ## inherited defaults: the full statement fails on the current code -/
 
 /-- `Base` declares a default; `Derived` includes `Base` -/
